@@ -37,8 +37,21 @@ def normalize_terms(j: Any, keep_factor_order: bool = True) -> Any:
 def parser_for(cfg: dict):
     from formulaic.parser import DefaultFormulaParser
 
+    names = list(cfg.get("flags", ["TWOSIDED", "MULTIPART"]))
+    spelling = cfg.get("flag_spelling", 0)
+    if spelling:
+        # the same configuration written as a set of (lower-case) names, with the convenience names where they apply:
+        # "none" is the empty set, "default" = {twosided, multipart}, "all" = every flag
+        rest = set(n.lower() for n in names)
+        if spelling == 2 and {"twosided", "multipart", "multistage"} <= rest:
+            spec = {"all"}
+        elif spelling >= 1 and {"twosided", "multipart"} <= rest:
+            spec = {"default"} | (rest - {"twosided", "multipart"})
+        else:
+            spec = {"none"} | rest
+        return DefaultFormulaParser(include_intercept=cfg.get("intercept", True), feature_flags=spec)
     flags = DefaultFormulaParser.FeatureFlags.NONE
-    for f in cfg.get("flags", ["TWOSIDED", "MULTIPART"]):
+    for f in names:
         flags |= getattr(DefaultFormulaParser.FeatureFlags, f)
     return DefaultFormulaParser(include_intercept=cfg.get("intercept", True), feature_flags=flags)
 
